@@ -209,7 +209,7 @@ def own_definition(ctx: Ctx, full_name: str, major: int, minor: int, root: str =
         raise AnalysisError("cannot evaluate DSDLDefinition(...) over a syntactic path: %s" % ex)
 
 
-def read_own(ctx: Ctx, d: Any, lookups: List[Any], times: int = 1, parse_fails: int = 0) -> Dict[str, Any]:
+def read_own(ctx: Ctx, d: Any, lookups: List[Any], times: int = 1, parse_fails: int = 0, fail_stage: Optional[str] = None, fail_cls: str = "InvalidDefinitionError") -> Dict[str, Any]:
     """d.read(lookups, visitors, handler, True) evaluated from DSDLDefinition.read's source; the builder's construction, the
     parser call and finalize() are recorded, the file is an abstract file"""
     cls = d._cls_
@@ -223,6 +223,8 @@ def read_own(ctx: Ctx, d: Any, lookups: List[Any], times: int = 1, parse_fails: 
         def finalize(self) -> Any:
             out["finalizes"] += 1
             out["order"].append("finalize")
+            if fail_stage == "finalize":
+                raise Raised(fail_cls, ast.Constant(value=None))  # a fault found only when the type is assembled
             return FINAL
 
     class AFile(Abstract):
@@ -250,12 +252,16 @@ def read_own(ctx: Ctx, d: Any, lookups: List[Any], times: int = 1, parse_fails: 
                 b = ABuilder(kw)
                 out["builders"].append(b)
                 out["order"].append("builder")
+                if fail_stage == "builder":
+                    raise Raised(fail_cls, e)
                 return b
             if last == "parse" and name.split(".")[0] not in f.env:
                 out["parses"].append(([f.fold(a) for a in e.args], {x.arg: f.fold(x.value) for x in e.keywords if x.arg}))
                 out["order"].append("parse")
                 if len(out["parses"]) <= parse_fails:
                     raise Raised("DSDLSyntaxError", e)  # the definition's text is bad
+                if fail_stage == "parse":
+                    raise Raised(fail_cls, e)
                 return None
             if name == "open":
                 out["opens"] += 1
@@ -277,6 +283,8 @@ def read_own(ctx: Ctx, d: Any, lookups: List[Any], times: int = 1, parse_fails: 
             out["results"].append("raise " + ex.cls_name)
             if not parse_fails:
                 break
+        except RecursionError:
+            raise AnalysisError("DSDLDefinition.read: evaluation does not terminate")
         except Unfoldable as ex:
             raise AnalysisError("DSDLDefinition.read: cannot evaluate over the abstract world: %s" % ex)
     return out
